@@ -167,6 +167,9 @@ def design_step(ctx, prop):
     """TLC on the writer + crash + rebuild model (RockWriter.tla): today's design holds C16/C17 up to the named findings, the
     repaired design holds them strictly; and the strict invariant IS violated on today's design (the finding exists at design level)."""
     mod = os.path.join(SPEC, 'MC_RockWriter.tla')
+    if os.environ.get('VERIF_C57_SKIP_MC'):        # mutant runs: the design step does not depend on the tree
+        ctx.notes.append('model checking of the specification skipped (VERIF_C57_SKIP_MC)')
+        return
     runs = ['q', 'q_fixed'] + (['t', 't_fixed'] if ctx.thorough else [])
     for c in runs:
         res = vlib.tlc_must_pass(ctx, mod, os.path.join(SPEC, 'MC_RockWriter_%s.cfg' % c), timeout=3000, args=['-noGenerateSpecTE'])
